@@ -658,6 +658,13 @@ def oracle_c07(rr: Any, spec: Dict[str, Any]) -> "tuple[List[Violation], int]":
                 got = [r for dd, _, r in rr.sc.saved if dd == d]
                 if len(got) != 1 or not got[0].is_err or not isinstance(got[0].error, TimeoutError):
                     v.append(Violation("timeout-result-wrong", f"delivery {d}: timeout label {tmo} but stored results {[(r.is_err, r.error) for r in got]}"))
+            else:
+                # ... whatever else kept it from starting, a *successful* result cannot come out of it
+                ok_res = [r for dd, _, r in rr.sc.saved if dd == d and not r.is_err]
+                if ok_res:
+                    checked += 1
+                    v.append(Violation("result-without-execution", f"delivery {d} ({info.get('task')}): the task function's body never ran, "
+                                       f"yet a result with is_err=False, return_value={ok_res[0].return_value!r} was stored"))
             continue
         beh = rr.sc.beh.get(info["tok"]) or {}
         checked += 1
